@@ -405,6 +405,16 @@ class Engine:
                 memo[id(v)] = (sv.t, v)
                 st.ghost["lifted_dicts"] = memo
             return st.ghost["lifted_dicts"][id(v)][0]
+        if type(v) is list and any(isinstance(x, SV) for x in v):
+            # a Python list of concrete shape built by the code under verification (e.g. list(chain(...))) that flows into
+            # the heap: a new list object holding its items; the same list lifts to the same object
+            memo = st.ghost.setdefault("lifted_lists", {})
+            if id(v) not in memo:
+                sv = self.new_list(st, list(v))
+                memo = dict(memo)
+                memo[id(v)] = (sv.t if isinstance(sv, SV) else self.lift(sv, st), v)
+                st.ghost["lifted_lists"] = memo
+            return st.ghost["lifted_lists"][id(v)][0]
         t = self._const_obj("obj", v)
         # a concrete object of a class the run knows about: its class is a fact, and packs may describe
         # (part of) its content - e.g. that lmap.EMPTY wraps an empty map
